@@ -123,5 +123,6 @@ pub fn spec_c02() -> PropSpec {
         nt_rule: "",
         engine: "seq",
         runner: None,
+        decode: None,
     }
 }
